@@ -3261,6 +3261,12 @@ nested_parse_template_instantiation(CPPTemplateScope *scope) {
       ++pi;
     }
 
+    if (_state == S_eof) {
+      // The input ended in the middle of the argument list.  A parameter
+      // pack would otherwise ask for another argument forever.
+      break;
+    }
+
     _state = S_nested;
     _paren_nesting = 0;
   }
